@@ -11,7 +11,8 @@ Import ListNotations.
 
 (* class model, given as data: issubclass, and per (owner class, attribute): WrappedField.is_iterable and type_endpoint *)
 Record cmodel : Type := { sub : cls -> cls -> bool; f_iter : cls -> nat -> bool; f_type : cls -> nat -> option cls;
-                          f_opt : cls -> nat -> bool (* WrappedField.is_optional *) }.
+                          f_opt : cls -> nat -> bool (* WrappedField.is_optional *);
+                          f_bcoll : cls -> nat -> bool (* a collection of builtin values, classified non-iterable *) }.
 
 Inductive path : Type :=
 | PRoot                          (* the variable let(T, domain) *)
@@ -132,6 +133,22 @@ Section Translate.
     | PSel c' => sels_apat true oc p a c'
     | PLit _ | PVar _ => []
     end.
+  (* AttributeAssignment.attr: a keyword that is not a (wrapped) field of the class the match variable is DECLARED with
+     raises NoneWrappedFieldError while the pattern is resolved -- also for an attribute only the matched subtype has *)
+  Fixpoint unk_pat (oc : cls) (a : nat) (q : pat) {struct q} : bool :=
+    match q with Pat _ l => unk_alist (dflt (f_type C oc a)) l end
+  with unk_alist (oc : cls) (l : alist) {struct l} : bool :=
+    match l with
+    | ANil => false
+    | ACons a c rest => negb (is_some (f_type C oc a)) || unk_apat oc a c || unk_alist oc rest
+    end
+  with unk_apat (oc : cls) (a : nat) (c : apat) {struct c} : bool :=
+    match c with
+    | PMatch q => unk_pat oc a q
+    | PSel c' => unk_apat oc a c'
+    | _ => false
+    end.
+
   (* Match.expression: the root variable first if it was written with entity_selection; the root variable alone if
      nothing is selected *)
   Definition sels_root (rootsel : bool) (T : cls) (l : alist) : list path :=
@@ -284,6 +301,7 @@ Definition run (C : cmodel) (M : mworld) (T : cls) (l : alist) (dom : list Z) : 
 (* an(entity_matching / entity_selection (T, domain)(a1 = .., ..)).evaluate() as rows of the selected expressions *)
 Definition run_rows (C : cmodel) (M : mworld) (rootsel : bool) (T : cls) (l : alist) (dom : list Z) : list (list val) :=
   run_rows_conds C M (filter (fun o => sub C (otype M o) T) dom) (sels_root C rootsel T l) (tr_alist C T PRoot l).
+Definition build_raises (C : cmodel) (T : cls) (l : alist) : bool := unk_alist C T l.
 Definition run_araises (C : cmodel) (M : mworld) (T : cls) (l : alist) (dom : list Z) : bool :=
   araises_all C M (filter (fun o => sub C (otype M o) T) dom) (tr_alist C T PRoot l) [].
 Definition run_raises (C : cmodel) (M : mworld) (T : cls) (l : alist) (dom : list Z) : bool :=
